@@ -12,7 +12,7 @@ from propgen import PropGen, render_property, property_to_wire
 from dump import dump_property, dump_pred, classify_exception, canon_str
 from layout import relayout
 import schema as SC
-from streams.c17 import oracle_property, denote, TYV, _short_desc
+from streams.c17 import oracle_property, denote, TYV, _short_desc, _declared
 
 S = Sym
 PROPERTY = 'C04'
@@ -49,7 +49,7 @@ def declared_ok(ast_pred, this_d, alias_d, bad):
             if d is None:
                 bad.append(('unresolved', str(e)))
                 return
-            declared = {'prim': None, 'arr': 8, 'msg': 64}[d[0]] or TYV[d[2]]
+            declared = _declared(d)
             if int(e.data_type.value) & declared != declared:
                 bad.append(('type-set-misses-declared-type', str(e), int(e.data_type.value), declared))
     if not ast_pred.is_vacuous:
